@@ -8,6 +8,7 @@ import (
 
 	"github.com/ipni/go-libipni/announce/gossiptopic"
 	"github.com/ipni/go-libipni/announce/message"
+	"github.com/ipni/go-libipni/verifhook"
 	pubsub "github.com/libp2p/go-libp2p-pubsub"
 	"github.com/libp2p/go-libp2p/core/host"
 )
@@ -95,6 +96,7 @@ func (s *Sender) Send(ctx context.Context, msg message.Message) error {
 	if s.maxSize != 0 && buf.Len() > s.maxSize {
 		return fmt.Errorf("announce message of %d bytes is too large for pubsub, limit is %d", buf.Len(), s.maxSize)
 	}
+	verifhook.Point("p2psend.publish", nil)
 	return s.topic.Publish(ctx, buf.Bytes())
 }
 
